@@ -61,7 +61,7 @@ def simpleScan (tbl : Table) : Nat → List Tok → Bool
          | some ps =>
            t.expandable &&
            (match callOf ts with
-            | none => (match ts with | x :: _ => x.text != "(" | [] => false) && simpleScan tbl n ts
+            | none => (match ts with | x :: _ => dtext x != "(" | [] => false) && simpleScan tbl n ts
             | some (args, rest) =>
               decide (ps.length ≤ args.length) && args.all (fun a => a.all (inertb tbl)) && simpleScan tbl n rest))
 
